@@ -213,7 +213,7 @@ func isAuth(h hline) bool { return strings.EqualFold(h.name, "Authorization") }
 func (f *flight) xmLines() (idx []int, ps []xm, ok bool) {
 	ok = true
 	for i, h := range f.hdr {
-		if !isAuth(h) || !strings.HasPrefix(h.val, "X-Matrix") {
+		if !isAuth(h) || !strings.HasPrefix(h.val, "X-Matrix ") {
 			continue
 		}
 		m := xmRe.FindStringSubmatch(h.val)
